@@ -410,6 +410,13 @@ def compare(ctx: Ctx, rule: str) -> None:
                   f"__update_delayed with due time {'after' if ordering == 'gt' else 'before'} now {'moves' if moved else 'does not move'} the message "
                   f"to the waiting queue" + (" - it becomes deliverable before its due time" if ordering == "gt" else " - it is never delivered"),
                   node=puts[0], instance=f"in-memory due ordering {ordering}")
+    # every entry is examined: the map is keyed by due time in insertion order, not sorted
+    for lp in loops:
+        exits = [x for st in lp.body for x in ast.walk(st) if isinstance(x, (ast.Break, ast.Return))]
+        sorted_iter = isinstance(lp.iter, ast.Call) and dotted(lp.iter.func) == "sorted"
+        ctx.check(not exits or sorted_iter, rule, f, "delayed refresh examines every entry", "no early exit from the scan of an unsorted map",
+                  "__update_delayed leaves its scan of the delayed map early (break/return) although the map is in insertion order, not sorted by due time: a due message filed "
+                  "behind a later-due one is never moved to the waiting queue (forgotten)", node=exits[0] if exits else None, instance="in-memory refresh exhaustive")
     # moved messages are removed from the delayed map (not duplicated)
     ctx.check(bool(pops), rule, f, "moved entries removed from the delayed map", "no duplicate left behind",
               "__update_delayed copies due messages to the waiting queue without removing them from the delayed map (delivered again on every refresh)",
